@@ -688,7 +688,8 @@ func TestLinReader(t *testing.T) {
 		cc := cache.Config{Name: "lin", Stats: stat, TimeToLive: time.Hour, ExpirationJitter: -1,
 			DeleteExpiredAfter: 30 * time.Minute, DeleteExpiredJobInterval: 100000 * time.Hour,
 			ItemsCountReportInterval: 100000 * time.Hour,
-			EvictionStrategy:         []cache.EvictionStrategy{cache.EvictMostExpired, cache.EvictLeastFrequentlyUsed}[hi%2]}
+			EvictionStrategy: []cache.EvictionStrategy{cache.EvictMostExpired, cache.EvictLeastFrequentlyUsed,
+				cache.EvictLeastRecentlyUsed}[(hi/3)%3]}
 
 		be := NewBackend(kind, cc)
 
